@@ -30,6 +30,8 @@ Record cfg := {
   magic_int : Z;
   version : list Z;
   flag_ref_ok : bool;          (* FLAG_REF honoured (marshal version >= 3); xdis: always *)
+  mask_flag : bool;            (* bit 7 of the type byte is the FLAG_REF flag (xdis.unmarshal, marshal.c) or part of the code (xdis.marsh) *)
+  unknown_err : bool;          (* an unknown type code raises (marshal.c, xdis.marsh) or yields None (xdis.unmarshal) *)
   code_ok : Z -> bool          (* which type codes exist; xdis: its whole dispatch table *)
 }.
 
@@ -282,10 +284,10 @@ Fixpoint r_object (fuel : nat) (c : cfg) (st : mstate) {struct fuel} : result (p
       match inp st with
       | [] => Err (if strict c then EOFErr else TypeErr)          (* ord(b'') *)
       | byte1 :: l =>
-          let flag := negb (Z.land byte1 128 =? 0) in
+          let flag := mask_flag c && negb (Z.land byte1 128 =? 0) in
           if strict c && flag && negb (flag_ref_ok c) then Err ValueErr else
-          let t := Z.land byte1 127 in
-          if negb (code_ok c t) then (if strict c then Err ValueErr else Ok (PNone, with_inp st l)) else
+          let t := if mask_flag c then Z.land byte1 127 else byte1 in
+          if negb (code_ok c t) then (if unknown_err c then Err ValueErr else Ok (PNone, with_inp st l)) else
           match r_leaf c flag t st l with
           | Some r => r
           | None =>
@@ -293,7 +295,7 @@ Fixpoint r_object (fuel : nat) (c : cfg) (st : mstate) {struct fuel} : result (p
               | Some r => r
               | None =>
                   if (t =? 99) || (t =? 67) then r_code c (r_object f c) flag st l     (* 'c' 'C' *)
-                  else (if strict c then Err ValueErr else Ok (PNone, with_inp st l))
+                  else (if unknown_err c then Err ValueErr else Ok (PNone, with_inp st l))
               end
           end
       end
